@@ -131,14 +131,14 @@ Proof. exact jit_next_spec. Qed.
 Print Assumptions C03_iter_next.
 
 (* ---- RANGE queries (partition.JIterator), the window between the chunk iterator's io.EOF and the chunk selector's look at
-   the chunks (model: eof_step). The reader stands at the end of the last chunk of its partition as it was; a writer's flush
-   lands in the window. Full statement: whatever is flushed there, the position after the window is the first record that
-   was not read (nothing of the flush is skipped) *)
-Definition C03_eof_window_statement (restore : bool) : Prop :=
+   the chunks (model: eof_step reresolve restore). The reader stands at the end of a chunk of its partition as it was; a
+   writer's flush - any sequence of appends: into that chunk, into new chunks, both - lands in the window. Statement: the
+   position after the window is the first record that was not read (nothing of the flush is skipped) *)
+Definition C03_eof_window_statement (reresolve restore : bool) : Prop :=
   forall j it p c (apps : list (N * list event)),
   wf_journal j -> wfj j it -> j_ci it = Some p -> find_chunk j (j_cid it) = Some c -> last_chunk j = Some c -> ci_read j it = None ->
   let j' := fold_left (fun a x => jappend a (fst x) (snd x)) apps j in
-  flat j' (jit_pos (fst (eof_step restore j' it))) = fl j it.
+  flat j' (jit_pos (fst (eof_step reresolve restore j' it))) = fl j it.
 
 Definition ex6_journal : journal := [mkCh 5 [mkEv 1 [x61] []; mkEv 2 [x62] []]].
 Definition ex6_it : jit := mkJit 5 2 (Some 2%N) false.
@@ -150,12 +150,31 @@ Proof.
   repeat split; reflexivity.
 Qed.
 
-(* the code (restore = true) when the flush stays in the chunk the reader stands at the end of: the position is kept, and the
-   next Get delivers the first flushed record *)
-Theorem C03_eof_window_partial : forall j it p c evs,
+(* the code (the selector is asked about the unread position): the full statement, whatever the restore test does; the
+   iterator is well-formed again and goes on reading (Get then delivers the record at that index, C03_iter_get) *)
+Theorem C03_eof_window : forall restore, C03_eof_window_statement true restore.
+Proof.
+  intros restore j it p c apps Hs Hw Hci Hf _ _.
+  destruct (eof_reresolved j it p c apps restore Hs Hw Hci Hf) as [A _]. exact A.
+Qed.
+Print Assumptions C03_eof_window.
+
+Theorem C03_eof_window_reads_on : forall restore j it p c (apps : list (N * list event)),
+  wf_journal j -> wfj j it -> j_ci it = Some p -> find_chunk j (j_cid it) = Some c ->
+  let j' := fold_left (fun a x => jappend a (fst x) (snd x)) apps j in
+  wfj j' (fst (eof_step true restore j' it)) /\ snd (eof_step true restore j' it) = true.
+Proof.
+  intros restore j it p c apps Hs Hw Hci Hf.
+  destruct (eof_reresolved j it p c apps restore Hs Hw Hci Hf) as [_ B]. exact B.
+Qed.
+Print Assumptions C03_eof_window_reads_on.
+
+(* the code before the repair (stepping to the next chunk id, with the restore) when the flush stays in the chunk the reader
+   stands at the end of: the position is kept, and the next Get delivers the first flushed record *)
+Theorem C03_eof_window_stepping_partial : forall j it p c evs,
   wf_journal j -> wfj j it -> j_ci it = Some p -> find_chunk j (j_cid it) = Some c -> last_chunk j = Some c -> ci_read j it = None ->
   let j' := jappend j (j_cid it) evs in
-  let it2 := fst (eof_step true j' it) in
+  let it2 := fst (eof_step false true j' it) in
   jit_pos it2 = jit_pos it /\ flat j' (jit_pos it2) = fl j it /\ fl j it = length (recs j) /\
   forall it3 r, jit_get j' it2 = (it3, r) -> r = nth_error (recs j') (fl j it).
 Proof.
@@ -163,29 +182,35 @@ Proof.
   destruct (eof_window_kept j it p c evs Hs Hw Hci Hf Hl He) as [A [_ [B [C D]]]]. cbn zeta in *.
   split; [exact A|]. split; [exact B|]. split; [exact C|exact D].
 Qed.
-Print Assumptions C03_eof_window_partial.
+Print Assumptions C03_eof_window_stepping_partial.
 
-(* the full statement is false of the code: a flush that extends the reader's chunk AND starts a new chunk (a chunk
-   roll-over inside the window) - the selector finds the new chunk, the iterator goes on there and the records the old
-   chunk has got are never read (known finding eof-window-rollover) *)
-Theorem C03_eof_window_refuted : ~ C03_eof_window_statement true.
+(* the full statement was false of the code before the repair: a flush that extends the reader's chunk AND starts a new chunk
+   (a chunk roll-over inside the window) - the selector finds the new chunk, the iterator goes on there and the records the old
+   chunk has got are never read *)
+Theorem C03_eof_window_stepping_refuted : ~ C03_eof_window_statement false true.
 Proof.
   intros H. destruct ex6_ok as [A [B [C [D [E F]]]]].
   specialize (H ex6_journal ex6_it 2%N _ [(5%N, [mkEv 3 [x63] []]); (9%N, [mkEv 4 [x64] []])] A B C D E F).
   vm_compute in H. discriminate H.
 Qed.
-Print Assumptions C03_eof_window_refuted.
+Print Assumptions C03_eof_window_stepping_refuted.
 
-(* the comparison of the restore the other way round (jit.pos.Idx < eofPos.Idx) never restores: then already a flush into
-   the reader's own chunk is stepped over (the code before /repo ee8da2c behaved like this too) *)
+(* the stepping variant with the comparison of the restore the other way round (jit.pos.Idx < eofPos.Idx: never restores):
+   already a flush into the reader's own chunk is stepped over (the code before /repo ee8da2c behaved like this too) *)
 Theorem C03_eof_window_no_restore_refuted : ~ (forall j it p c evs,
   wf_journal j -> wfj j it -> j_ci it = Some p -> find_chunk j (j_cid it) = Some c -> last_chunk j = Some c -> ci_read j it = None ->
-  let j' := jappend j (j_cid it) evs in flat j' (jit_pos (fst (eof_step false j' it))) = fl j it).
+  let j' := jappend j (j_cid it) evs in flat j' (jit_pos (fst (eof_step false false j' it))) = fl j it).
 Proof.
   intros H. destruct ex6_ok as [A [B [C [D [E F]]]]].
   specialize (H ex6_journal ex6_it 2%N _ [mkEv 3 [x63] []] A B C D E F). vm_compute in H. discriminate H.
 Qed.
 Print Assumptions C03_eof_window_no_restore_refuted.
+
+(* the same two flushes under the code: the position is the first unread record *)
+Example C03_ex_eof_window :
+  jit_pos (fst (eof_step true true (fold_left (fun a x => jappend a (fst x) (snd x)) [(5%N, [mkEv 3 [x63] []]); (9%N, [mkEv 4 [x64] []])] ex6_journal) ex6_it)) = (5%N, 2%N)
+  /\ jit_pos (fst (eof_step false true (fold_left (fun a x => jappend a (fst x) (snd x)) [(5%N, [mkEv 3 [x63] []]); (9%N, [mkEv 4 [x64] []])] ex6_journal) ex6_it)) = (9%N, 0%N).
+Proof. vm_compute. split; reflexivity. Qed.
 
 (* ---- content, over all five kinds (the four of the property plus "the previous request sent again", what a
    client does when it retries a page): every delivered event is a stored event of its partition *)
